@@ -282,6 +282,8 @@ func XOneofVariantShapes() *spec.Spec {
 		spec.M("VEnum", spec.En("shade", "Shade")),
 		spec.M("VTime", spec.Msg("at", ".google.protobuf.Timestamp")),
 		spec.M("VBytes", spec.F("blob", "bytes")),
+		// a variant whose member has the name of the variant field itself (flattened: {"type":"self","self":"x"})
+		spec.M("VSelf", spec.F("self", "string"), spec.F("extra", "string")),
 	}
 	members := func() []*spec.Field {
 		out := []*spec.Field{spec.F("id", "string")}
